@@ -44,18 +44,65 @@ def write_coqproject() -> bool:
     return False
 
 
+GEN_OF = {"extract_constants": "Constants", "extract_tracer": "TracerConstants", "extract_effects": "EffectsConstants",
+          "extract_store": "StoreConstants", "extract_stubrender": "StubRenderConstants"}
+LAST_GEN_FAILURES = {}      # generated file (basename without .v) -> message, from the last regenerate_all()
+
+
 def regenerate_all():
     """Run every source-derived generator: harness/extract_*.py, each exposing regenerate() -> (ok, msg) and
-    writing coq/Gen/<something>.v from /repo's current source.  Fail closed."""
+    writing coq/Gen/<something>.v from /repo's current source.  Fail closed, but run ALL of them: which failure matters
+    to which property is decided by gen_failures_for()."""
     import importlib
     hd = os.path.join(VERIF, "harness")
+    LAST_GEN_FAILURES.clear()
     for fn in sorted(os.listdir(hd)):
         if fn.startswith("extract_") and fn.endswith(".py"):
             mod = importlib.import_module("harness." + fn[:-3])
-            ok, msg = mod.regenerate()
+            try:
+                ok, msg = mod.regenerate()
+            except Exception as e:      # an extractor that crashes has failed
+                ok, msg = False, f"{type(e).__name__}: {e}"
             if not ok:
-                return False, f"source extractor {fn}: {msg}"
+                LAST_GEN_FAILURES[GEN_OF.get(fn[:-3], fn[:-3])] = f"source extractor {fn}: {msg}"
+    if LAST_GEN_FAILURES:
+        return False, "; ".join(LAST_GEN_FAILURES.values())
     return True, "ok"
+
+
+def coq_closure(rel_files):
+    """Transitive closure of `From MT Require Import/Export ...` over coq/<dir>/<Name>.v files: set of module basenames."""
+    import re as _re
+    index = {}
+    for d in ("Model", "Proofs", "Props", "Refuted", "Check", "Gen"):
+        dd = os.path.join(COQ, d)
+        if os.path.isdir(dd):
+            for fn in os.listdir(dd):
+                if fn.endswith(".v"):
+                    index.setdefault(fn[:-2], []).append(os.path.join(dd, fn))
+    seen, todo = set(), [os.path.join(COQ, f) for f in rel_files]
+    names = set()
+    while todo:
+        f = todo.pop()
+        if f in seen or not os.path.exists(f):
+            continue
+        seen.add(f)
+        names.add(os.path.basename(f)[:-2])
+        src = open(f).read()
+        for m in _re.finditer(r"(?:From\s+MT\s+)?Require\s+(?:Import\s+|Export\s+)?([^.]*?)\.\s", src):
+            for tok in m.group(1).replace("\n", " ").split():
+                tok = tok.split(".")[-1]
+                for cand in index.get(tok, []):
+                    todo.append(cand)
+    return names
+
+
+def gen_failures_for(rel_files):
+    """the extractor failures that concern a property: those whose generated file its Coq files (transitively) import"""
+    if not LAST_GEN_FAILURES:
+        return {}
+    deps = coq_closure(rel_files)
+    return {g: m for g, m in LAST_GEN_FAILURES.items() if g in deps}
 
 
 def sub_env(extra=None):
